@@ -30,6 +30,7 @@ type c08Case struct {
 	faultAt   int    // -1 = none
 	faultKind string // eof | unexpected-eof | reset
 	empty     bool   // zero-length body (Content-Length: 0)
+	big       bool   // 1 MiB + 4 KiB body (beyond any buffering threshold a backend may have)
 }
 
 func (cs c08Case) String() string {
@@ -37,6 +38,9 @@ func (cs c08Case) String() string {
 		cs.kind, cs.target, cs.start, cs.md5, cs.declLen, cs.framing, cs.integrity, cs.keyLen, cs.metaUser, cs.metaLimit, cs.faultAt, cs.faultKind)
 	if cs.empty {
 		s += " body=empty"
+	}
+	if cs.big {
+		s += " body=1MiB+4KiB"
 	}
 	return s
 }
@@ -76,6 +80,26 @@ func runC08(c *engine.Ctx) {
 								cases = append(cases, c08Case{kind: k, target: target, start: st, md5: m, declLen: "exact", framing: fr, integrity: integ, faultAt: -1, empty: true})
 							}
 						}
+					}
+				}
+				// large bodies: every way of being rejected, plus the valid upload
+				if target == "object" {
+					const bigLen = 1<<20 + 4096
+					for _, bc := range []c08Case{
+						{md5: "correct", declLen: "exact", framing: "plain", faultAt: -1},
+						{md5: "wrong", declLen: "exact", framing: "plain", faultAt: -1},
+						{md5: "absent", declLen: "plus1", framing: "plain", faultAt: -1},
+						{md5: "absent", declLen: "exact", framing: "chunked", faultAt: -1},
+						{md5: "absent", declLen: "exact", framing: "chunked-dec+1", faultAt: -1},
+						{md5: "absent", declLen: "exact", framing: "chunked-dec-1", faultAt: -1},
+						{md5: "wrong", declLen: "exact", framing: "chunked", faultAt: -1},
+						{md5: "absent", declLen: "exact", framing: "plain", faultAt: 0, faultKind: "eof"},
+						{md5: "absent", declLen: "exact", framing: "plain", faultAt: bigLen / 2, faultKind: "eof"},
+						{md5: "absent", declLen: "exact", framing: "plain", faultAt: bigLen - 1, faultKind: "reset"},
+						{md5: "correct", declLen: "exact", framing: "plain", faultAt: bigLen - 1, faultKind: "unexpected-eof"},
+					} {
+						bc.kind, bc.target, bc.start, bc.integrity, bc.big = k, target, st, true, true
+						cases = append(cases, bc)
 					}
 				}
 				// faults
@@ -144,6 +168,12 @@ func c08Run(c *engine.Ctx, cs c08Case) (string, string, string) {
 	if cs.empty {
 		body = []byte{}
 	}
+	if cs.big {
+		body = make([]byte, 1<<20+4096)
+		for i := range body {
+			body[i] = byte('a' + i%23)
+		}
+	}
 	old := []byte("the-old-content")
 	uploadID := ""
 	switch cs.start {
@@ -208,6 +238,8 @@ func c08Run(c *engine.Ctx, cs c08Case) (string, string, string) {
 	case "chunked", "chunked-dec+1", "chunked-dec-1":
 		if cs.empty {
 			wire = drv.EncodeChunked(body, nil)
+		} else if cs.big {
+			wire = drv.EncodeChunked(body, []int{1 << 16, 1<<20 - 1<<16, 4096})
 		} else {
 			wire = drv.EncodeChunked(body, []int{5, 7})
 		}
